@@ -116,6 +116,25 @@ V("C19", "unregistered", "fire", "C19.R3", "subcommand not registered",
   ("src/pyhf/cli/cli.py", "pyhf.add_command(spec.digest)\n", ""))
 V("C19", "xml2json-basedir", "fire", "C19.R1", "--basedir ignored",
   ("src/pyhf/cli/rootio.py", "        entrypoint_xml,\n        basedir,\n        mounts=mount,", "        entrypoint_xml,\n        Path.cwd(),\n        mounts=mount,"))
+V("C19", "fit-optimizer-skip-if-active", "fire", "C19.R4", "fit keeps the active optimizer when its name matches (settings of an earlier invocation survive)",
+  ("src/pyhf/cli/infer.py", "    elif backend in [\"jax\"]:\n        set_backend(\"jax\")\n    tensorlib, _ = get_backend()\n", "    elif backend in [\"jax\"]:\n        set_backend(\"jax\")\n    tensorlib, active_optimizer = get_backend()\n"),
+  ("src/pyhf/cli/infer.py", "    # set the new optimizer\n    if optimizer:\n        new_optimizer = getattr(optimize, optimizer) or getattr(\n            optimize, f\"{optimizer}_optimizer\"", "    # set the new optimizer\n    if optimizer != active_optimizer.name or optconf:\n        new_optimizer = getattr(optimize, optimizer) or getattr(\n            optimize, f\"{optimizer}_optimizer\""))
+V("C19", "cls-optimizer-default-none", "fire", "C19.R4", "cls --optimizer defaults to None: --optconf alone is parsed and dropped",
+  ("src/pyhf/cli/infer.py", "    help=\"The optimizer used for the calculation.\",\n    default=\"scipy\",\n)\n@click.option('--optconf', type=EqDelimStringParamType(), multiple=True)\ndef cls(", "    help=\"The optimizer used for the calculation.\",\n    default=None,\n)\n@click.option('--optconf', type=EqDelimStringParamType(), multiple=True)\ndef cls("))
+V("C19", "cls-optconf-last-only", "fire", "C19.R4", "only the last --optconf item is used",
+  ("src/pyhf/cli/infer.py", "    optconf = {\n        opt_name: opt_value for item in optconf for opt_name, opt_value in item.items()\n    }\n\n    # set the new optimizer\n    if optimizer:\n        new_optimizer = getattr(optimize, optimizer) or getattr(\n            optimize, f'{optimizer}_optimizer'", "    optconf = dict(optconf[-1]) if optconf else {}\n\n    # set the new optimizer\n    if optimizer:\n        new_optimizer = getattr(optimize, optimizer) or getattr(\n            optimize, f'{optimizer}_optimizer'"))
+V("C19", "fit-tf-alias-to-torch", "fire", "C19.R4", "--backend tf selects pytorch",
+  ("src/pyhf/cli/infer.py", "    if backend in [\"pytorch\", \"torch\"]:\n        set_backend(\"pytorch\", precision=\"64b\")\n    elif backend in [\"tensorflow\", \"tf\"]:", "    if backend in [\"pytorch\", \"torch\", \"tf\"]:\n        set_backend(\"pytorch\", precision=\"64b\")\n    elif backend in [\"tensorflow\"]:"))
+V("C19", "inspect-types-from-dict", "fire", "C19.R4", "inspect takes the modifier type of a parameter from a name->type dict (one type per name)",
+  ("src/pyhf/cli/spec.py", "        (\n            parameter[0],\n            parameter[1],\n            [modifier[1] for modifier in ws.modifiers if modifier[0] == parameter[0]],\n        )", "        (parameter[0], parameter[1], [result['modifiers'][parameter[0]]])"))
+V("C19", "inspect-default-measurement-marker", "fire", "C19.R4", "inspect marks the first measurement whatever --measurement says",
+  ("src/pyhf/cli/spec.py", "    default_measurement = ws.get_measurement(measurement_name=measurement)", "    default_measurement = ws.get_measurement()"))
+V("C19", "fit-optconf-merge-loop", "silent", "", "--optconf items merged by an explicit loop",
+  ("src/pyhf/cli/infer.py", "    optconf = {\n        opt_name: opt_value for item in optconf for opt_name, opt_value in item.items()\n    }\n\n    # set the new optimizer\n    if optimizer:\n        new_optimizer = getattr(optimize, optimizer) or getattr(\n            optimize, f\"{optimizer}_optimizer\"", "    merged = {}\n    for item in optconf:\n        merged.update(item)\n    optconf = merged\n\n    # set the new optimizer\n    if optimizer:\n        new_optimizer = getattr(optimize, optimizer) or getattr(\n            optimize, f\"{optimizer}_optimizer\""))
+V("C19", "fit-numpy-explicit", "silent", "", "fit also switches to numpy explicitly",
+  ("src/pyhf/cli/infer.py", "    elif backend in [\"jax\"]:\n        set_backend(\"jax\")\n    tensorlib, _ = get_backend()", "    elif backend in [\"jax\"]:\n        set_backend(\"jax\")\n    else:\n        set_backend(\"numpy\")\n    tensorlib, _ = get_backend()"))
+V("C19", "inspect-types-deduplicated", "silent", "", "inspect collects the modifier types of a parameter through a name -> set table",
+  ("src/pyhf/cli/spec.py", "    result['systematics'] = [\n        (\n            parameter[0],\n            parameter[1],\n            [modifier[1] for modifier in ws.modifiers if modifier[0] == parameter[0]],\n        )", "    types_of = {}\n    for modname, modtype in ws.modifiers:\n        types_of.setdefault(modname, []).append(modtype)\n    result['systematics'] = [\n        (\n            parameter[0],\n            parameter[1],\n            sorted(set(types_of.get(parameter[0], []))),\n        )"))
 
 # ------------------------------------------------------------------ C06
 TS = "src/pyhf/infer/test_statistics.py"
